@@ -372,52 +372,53 @@ func fileReadAux(L *LState, file *lFile, idx int) int {
 			}
 			L.Push(LString(string(buf)))
 		case LString:
-			options := L.CheckString(i)
-			if len(options) > 0 && options[0] != '*' {
-				L.ArgError(2, "invalid options:"+options)
+			// liolib g_read: a format is a star and a letter, and only that letter counts ("*l", "*line")
+			options := string(lv)
+			if len(options) < 2 || options[0] != '*' {
+				L.ArgError(i, "invalid format")
 			}
-			for _, opt := range options[1:] {
-				switch opt {
-				case 'n':
-					var v LNumber
-					var ok bool
-					v, ok, err = readBufioNumber(file.reader)
-					if err != nil {
-						goto errreturn
-					}
-					if !ok {
-						// no numeral (or end of file): nil for this format, the earlier results stay
-						L.Push(LNil)
-						goto normalreturn
-					}
-					L.Push(v)
-				case 'a':
-					var buf []byte
-					buf, err = io.ReadAll(file.reader)
-					if err == io.EOF {
-						L.Push(emptyLString)
-						goto normalreturn
-					}
-					if err != nil {
-						goto errreturn
-					}
-					L.Push(LString(string(buf)))
-				case 'l':
-					var buf []byte
-					var iseof bool
-					buf, err, iseof = readBufioLine(file.reader)
-					if iseof {
-						L.Push(LNil)
-						goto normalreturn
-					}
-					if err != nil {
-						goto errreturn
-					}
-					L.Push(LString(string(buf)))
-				default:
-					L.ArgError(2, "invalid options:"+string(opt))
+			switch options[1] {
+			case 'n':
+				var v LNumber
+				var ok bool
+				v, ok, err = readBufioNumber(file.reader)
+				if err != nil {
+					goto errreturn
 				}
+				if !ok {
+					// no numeral (or end of file): nil for this format, the earlier results stay
+					L.Push(LNil)
+					goto normalreturn
+				}
+				L.Push(v)
+			case 'a':
+				var buf []byte
+				buf, err = io.ReadAll(file.reader)
+				if err == io.EOF {
+					L.Push(emptyLString)
+					goto normalreturn
+				}
+				if err != nil {
+					goto errreturn
+				}
+				L.Push(LString(string(buf)))
+			case 'l':
+				var buf []byte
+				var iseof bool
+				buf, err, iseof = readBufioLine(file.reader)
+				if iseof {
+					L.Push(LNil)
+					goto normalreturn
+				}
+				if err != nil {
+					goto errreturn
+				}
+				L.Push(LString(string(buf)))
+			default:
+				L.ArgError(i, "invalid format")
 			}
+		default:
+			L.ArgError(i, "invalid format")
 		}
 	}
 normalreturn:
